@@ -386,12 +386,13 @@ def _ed_script_split(old, new):
 
 def _ed_script_diff(old, new, tmpdir):
     a, b = os.path.join(tmpdir, "a"), os.path.join(tmpdir, "b")
-    open(a, "w").write("".join(old))
-    open(b, "w").write("".join(new))
-    r = subprocess.run(["diff", "-e", a, b], capture_output=True, text=True)
+    open(a, "wb").write("".join(old).encode("utf-8"))            # bytes in, bytes out: no newline translation anywhere
+    open(b, "wb").write("".join(new).encode("utf-8"))
+    r = subprocess.run(["diff", "-e", a, b], capture_output=True)
     if r.returncode not in (0, 1):
         return None
-    return r.stdout.splitlines(True)
+    out = r.stdout.decode("utf-8")
+    return [l for l in re.split(r"(?<=\n)", out) if l]           # lines end at "\n" only (not at FF, U+2028 ... as splitlines would)
 
 
 def _apply(script, old, as_bytes, materialize=False):
@@ -413,7 +414,8 @@ def bounded_ed(ctx):
     import shutil
     import tempfile
     rng = random.Random(ctx.seed)
-    alphabet = ["x\n", "y\n", ". \n", "..\n", "2a\n", " .\n", ".\t\n"]
+    alphabet = ["x\n", "y\n", ". \n", "..\n", "2a\n", " .\n", ".\t\n", "%s\n", "1,2c\n", "a;b,c\n", "\\n\n", "٣\n", "-----BEGIN PGP SIGNATURE-----\n",
+                ".\r\n", "x\x0cy\n"]
     maxlen = 3 if ctx.tier == "quick" else 4
     have_diff = shutil.which("diff") is not None
     tmp = tempfile.mkdtemp(prefix="verif-c18-", dir="/dev/shm" if os.path.isdir("/dev/shm") else None)
